@@ -2953,7 +2953,47 @@ impl GlobalInferenceCtx<'_> {
 
                             let ty = self.tys[self.loc][body];
 
-                            if ty.is_pointer() || ty.is_function() {
+                            // a pointer produced at compile time points into memory that is gone
+                            // when the program runs. that also goes for pointers inside of the
+                            // result (`struct { name: str }`, `?str`, `[2][]i32`, `any`).
+                            // the text of a plain `str` result is captured, so that is fine.
+                            fn holds_pointer(ty: &Ty) -> bool {
+                                match ty {
+                                    Ty::Pointer { .. }
+                                    | Ty::RawPtr { .. }
+                                    | Ty::RawSlice
+                                    | Ty::Slice { .. }
+                                    | Ty::String
+                                    | Ty::Any
+                                    | Ty::ConcreteFunction { .. }
+                                    | Ty::FunctionPointer { .. } => true,
+                                    Ty::AnonArray { size, sub_ty }
+                                    | Ty::ConcreteArray { size, sub_ty, .. } => {
+                                        *size > 0 && holds_pointer(sub_ty)
+                                    }
+                                    Ty::AnonStruct { members } | Ty::ConcreteStruct { members, .. } => {
+                                        members.iter().any(|member| holds_pointer(&member.ty))
+                                    }
+                                    Ty::Enum { variants, .. } => {
+                                        variants.iter().any(|variant| holds_pointer(variant))
+                                    }
+                                    Ty::EnumVariant { sub_ty, .. }
+                                    | Ty::Distinct { sub_ty, .. }
+                                    | Ty::Optional { sub_ty } => holds_pointer(sub_ty),
+                                    Ty::ErrorUnion {
+                                        error_ty,
+                                        payload_ty,
+                                    } => holds_pointer(error_ty) || holds_pointer(payload_ty),
+                                    _ => false,
+                                }
+                            }
+
+                            let plain_str = matches!(ty.absolute_ty(), Ty::String);
+
+                            if ty.is_pointer()
+                                || ty.is_function()
+                                || (!plain_str && holds_pointer(&ty))
+                            {
                                 self.diagnostics.push(TyDiagnostic {
                                     kind: TyDiagnosticKind::ComptimePointer,
                                     file: self.loc.file(),
